@@ -107,7 +107,8 @@ func ParseWithDialect(dialect dialect.Dialect, sql string) (Statement, error) {
 	tokenizer := NewStringTokenizerWithDialect(dialect, sql)
 	if yyParse(tokenizer) != 0 {
 		if tokenizer.partialDDL != nil {
-			log.Printf("ignoring error parsing DDL '%s': %v", sql, tokenizer.LastError)
+			// the text of a statement that was not parsed must not get into the log: it may hold values
+			log.Printf("ignoring error parsing DDL: %v", tokenizer.LastError)
 			tokenizer.ParseTree = tokenizer.partialDDL
 			return tokenizer.ParseTree, nil
 		}
